@@ -5,7 +5,13 @@
 #include <stdlib.h>
 #include <string.h>
 #if defined(T_TTL)
+#ifdef T_HOSTENT
+/* exact copy of an address (4 or 16 bytes): CBMC's memcpy with a symbolic length is slow */
+static void *ai_memcpy(void *d, const void *s, size_t n) { __CPROVER_assert(n == 4 || n == 16, "address copy of 4 or 16 bytes"); for (size_t i = 0; i < 16; i++) if (i < n) ((unsigned char *)d)[i] = ((const unsigned char *)s)[i]; return d; }
+#define memcpy ai_memcpy
+#endif
 #include "src/lib/ares_addrinfo2hostent.c"
+#undef memcpy
 #elif defined(T_SORT)
 #include "src/lib/ares_sortaddrinfo.c"
 #else
@@ -53,6 +59,43 @@ void h_addrttl(void)
   __CPROVER_assert(a4[req].ttl == -77 && a6[req].ttl == -77, "C18: nothing is written beyond the capacity the caller offered");
 }
 
+#ifdef T_HOSTENT
+/* ---------------- ares_addrinfo2hostent(): the host entry is exactly the addresses of ONE family, in list order, plus the aliases ---------- */
+static _Bool g_oom; static int g_he_freed; static char nm_tok[4], nm_dup[4];
+void *ares_malloc_zero(size_t n) { if (g_oom && nondet_bool()) return NULL; __CPROVER_assert(n == 4 || n == 16 || n == sizeof(struct hostent), "an address or the host entry"); void *p = calloc(1, sizeof(struct hostent)); /* fixed size: a symbolic allocation size is slow */ __CPROVER_assume(p != NULL); return p; }
+void *ares_realloc_zero(void *ptr, size_t orig, size_t nw) { __CPROVER_assert(ptr == NULL && orig == 0, "fresh host entry: nothing to grow from"); if (g_oom && nondet_bool()) return NULL; __CPROVER_assert(nw % sizeof(char *) == 0 && nw <= 5 * sizeof(char *), "pointer array sized from the counts"); void *p = calloc(5, sizeof(char *)); __CPROVER_assume(p != NULL); return p; }
+char *ares_strdup(const char *s) { if (s == NULL || (g_oom && nondet_bool())) return NULL; return &nm_dup[s - nm_tok]; }
+void ares_free(void *p) { }
+void ares_free_hostent(struct hostent *h) { if (h) g_he_freed++; }
+void h_ai2hostent(void)
+{
+  static struct ares_addrinfo ai; static struct ares_addrinfo_cname cn[2]; mk_nodes(); ai.nodes = g_nn ? &g_node[0] : NULL; ai.name = &nm_tok[0]; g_oom = nondet_bool(); g_he_freed = 0;
+  size_t nc = nondet_size() % 3; for (int i = 0; i < 2; i++) { cn[i].name = &nm_tok[1]; cn[i].alias = nondet_bool() ? &nm_tok[2 + i] : NULL; cn[i].next = (size_t)(i + 1) < nc ? &cn[i + 1] : NULL; } ai.cnames = nc ? &cn[0] : NULL;
+  int family = nondet_bool() ? AF_UNSPEC : (nondet_bool() ? AF_INET : AF_INET6); struct hostent *he = NULL;
+  ares_status_t rv = ares_addrinfo2hostent(&ai, family, &he);
+  int fam = family != AF_UNSPEC ? family : (g_nn ? g_node[0].ai_family : AF_UNSPEC);
+  if (fam == AF_UNSPEC) { __CPROVER_assert(rv == ARES_EBADQUERY && he == NULL, "C13: no family can be chosen for an empty result"); return; }
+  size_t want = 0, nal = 0; for (size_t i = 0; i < NMAX; i++) if (i < g_nn && g_node[i].ai_family == fam) want++; for (size_t i = 0; i < 2; i++) if (i < nc && cn[i].alias != NULL) nal++;
+  if (rv != ARES_SUCCESS) {
+    __CPROVER_assert(he == NULL, "C13/C14: nothing is handed out on failure");
+    if (rv == ARES_ENODATA) __CPROVER_assert(want == 0 && nc == 0 && g_he_freed == 1, "C13: no data only when there is neither an address of the family nor an alias record");
+    else __CPROVER_assert(rv == ARES_ENOMEM && g_oom && g_he_freed <= 1, "C14: otherwise only out of memory, the partial entry released once");
+    return;
+  }
+  __CPROVER_assert(he != NULL && g_he_freed == 0 && he->h_addrtype == fam && he->h_length == (fam == AF_INET ? 4 : 16), "C13: one family per host entry: the requested one, else that of the first address");
+  __CPROVER_assert(he->h_name == (nc ? &nm_dup[1] : &nm_dup[0]), "C13: named after the canonical name when aliases were followed, else after the name asked for");
+  size_t k = 0;
+  for (size_t i = 0; i < NMAX; i++) if (i < g_nn && g_node[i].ai_family == fam) {
+    __CPROVER_assert(he->h_addr_list[k] != NULL, "C13: every address of the family is returned");
+    const unsigned char *src = fam == AF_INET ? (const unsigned char *)&g_sa4[i].sin_addr : (const unsigned char *)&g_sa6[i].sin6_addr;
+    for (size_t j = 0; j < 16; j++) if (j < (size_t)he->h_length) __CPROVER_assert(((unsigned char *)he->h_addr_list[k])[j] == src[j], "C13: addresses are returned unchanged, in list order");
+    k++;
+  }
+  __CPROVER_assert(k == want && he->h_addr_list[k] == NULL, "C13: no address invented, the list ends after the last one");
+  size_t a = 0; for (size_t i = 0; i < 2; i++) if (i < nc && cn[i].alias != NULL) { __CPROVER_assert(he->h_aliases[a] == &nm_dup[2 + i], "C13/C18: the aliases followed are listed in order"); a++; }
+  __CPROVER_assert(he->h_aliases[a] == NULL, "C13/C18: the alias list ends after the last alias");
+}
+#endif
 #elif defined(T_SORT)
 /* ---------------- sorting relinks every node exactly once --------------------------------------------------------- */
 /* ASSUMED: qsort() permutes the array (any permutation: the comparator's order is not the point here); find_src_addr() stand-in reports reachable / unreachable / error */
